@@ -718,6 +718,31 @@ bool Comparer::refute(int a, int b, bool fp, int bytes, bool exactBits, std::str
       point = s.str(); std::ostringstream sa, sbb; sa.precision(17); sbb.precision(17); sa << (double)x; sbb << (double)y; va = sa.str(); vb = sbb.str(); return true;
     }
   }
+  // small integer symbols used as lane masks: the generic points rarely separate two bits of one mask, so every one-hot value, its
+  // complement, 0 and all-ones is tried for each such symbol (the other symbols at point 0)
+  if (exactBits || !fp) {
+    std::set<int> sy = symsOf(a), sb = symsOf(b); sy.insert(sb.begin(), sb.end()); int tried = 0;
+    for (int ms : sy) {
+      const Term &mt = TT.t[ms]; const SymNS &ns = TT.ns[mt.a[0]];
+      if (ns.fp || ns.esz > 2 || tried++ >= 3) continue;
+      int bits = ns.esz * 8; std::vector<uint64_t> vals{0, (bits >= 64 ? ~0ULL : ((1ULL << bits) - 1))};
+      for (int k = 0; k < bits; k++) { vals.push_back(1ULL << k); vals.push_back(vals[1] & ~(1ULL << k)); }
+      for (uint64_t v : vals) {
+        std::unordered_map<int, uint64_t> ov{{ms, v}}; auto *saved = g_symOverride; g_symOverride = &ov;
+        std::unordered_map<int, uint64_t> m; uint64_t x, y; g_evalOverflow = false;
+        bool ok = evalBits(a, 0, m, x) && evalBits(b, 0, m, y);
+        g_symOverride = saved;
+        if (!ok || g_evalOverflow) continue;
+        evaluable = true;
+        if (x == y) continue;
+        if (fp) { double dx = bitsToFp(x, bytes), dy = bitsToFp(y, bytes); if (std::isnan(dx) || std::isnan(dy)) continue; }
+        std::ostringstream s; s << TT.str(ms) << "=" << v << " (other inputs as at point 0)"; point = s.str();
+        std::ostringstream sa, sbb; sa.precision(17); sbb.precision(17);
+        if (fp) { sa << bitsToFp(x, bytes); sbb << bitsToFp(y, bytes); } else { sa << sextB(x, bytes * 8); sbb << sextB(y, bytes * 8); }
+        va = sa.str(); vb = sbb.str(); return true;
+      }
+    }
+  }
   return false;
 }
 
